@@ -129,10 +129,14 @@ func runC06(c *sim.Ctx) *sim.Violation {
 	if c.Run < 9 || (c.Thorough && c.Run < 40) {
 		return c06Mega(c)
 	}
-	if c.Run == 40 || (c.Thorough && c.Run > 40 && c.Run < 56) {
-		types := []byte{0x40, 0x20, 0x50, 0x62, 0x70, 0x90, 0xB0, 0xE0, 0xF0, 0x00, 0x82, 0xA2, 0x10, 0xC0, 0xD0, 0x30}
-		sizes := []int{1<<27 + 5, 1<<28 - 1, 1<<27 + 1, 1 << 27, 1<<27 + 4096, 200 << 20}
-		return c06Giant(c, sizes[int(c.Run+c.Seed)%len(sizes)], types[int(c.Run-40)%len(types)])
+	if c.Run == 40 || c.Run == 41 || (c.Thorough && c.Run > 41 && c.Run < 72) {
+		types := []byte{0x40, 0xE0, 0x20, 0x50, 0x62, 0x70, 0x90, 0xB0, 0xF0, 0x00, 0x82, 0xA2, 0x10, 0xC0, 0xD0, 0x30}
+		sizes := []int{1<<27 + 5, 1<<28 - 1, 1<<27 + 1, 1 << 27, 1<<27 + 4097, 200<<20 + 3, 1<<28 - 4096}
+		k := int(c.Run - 40)
+		if k >= 2 {
+			k = int(c.Run + c.Seed)
+		}
+		return c06Giant(c, sizes[k%len(sizes)], types[int(c.Run-40)%len(types)])
 	}
 	n := 1 + t.Pick(3, 3, 2, 2)
 	if n == 4 {
